@@ -97,7 +97,9 @@ def alphabet(states):
 
 
 def _cache_worker(args):
-    seqs, size, tid0 = args
+    if len(args) == 4 and args[3] == 'github':
+        return _cache_worker_github(args[:3])
+    seqs, size, tid0 = args[:3]
     if REPO not in sys.path:
         sys.path.insert(0, REPO)
     import logging
@@ -185,13 +187,92 @@ def _cache_worker(args):
     return out
 
 
+def _cache_worker_github(args):
+    """The same sequences on the GitHub client: get_build_status -> get_commit_status (combined status of the
+    commit + workflow runs) through a scripted client, status events through the /github webhook route."""
+    seqs, size, tid0 = args
+    if REPO not in sys.path:
+        sys.path.insert(0, REPO)
+    import logging
+    logging.disable(logging.CRITICAL)
+    os.environ.update(WEBHOOK_LOGIN='hooklogin', WEBHOOK_PWD='hookpwd', BERT_E_CLIENT_ID='cid',
+                      BERT_E_CLIENT_SECRET='csecret')
+    import base64
+    from collections import deque
+    from queue import Queue
+    from bert_e import bert_e as bemod, server
+    from bert_e.git_host import github, cache
+    from bert_e.lib.settings_dict import SettingsDict
+    host = {}
+    GH = {'SUCCESSFUL': 'success', 'FAILED': 'failure', 'INPROGRESS': 'pending'}
+    repo_doc = {'name': 'test_repo', 'full_name': 'test_owner/test_repo', 'owner': {'id': 1, 'login': 'test_owner'}}
+
+    class Client:
+        login = 'robot'
+
+        def get(self, url, params=None, headers=None, **kw):
+            if '/actions/runs' in url:
+                return {'total_count': 0, 'workflow_runs': []}
+            ref = url.split('/commits/')[1].split('/')[0]
+            sts = [{'state': GH[s], 'target_url': 'http://ci/1', 'description': 'd', 'context': k}
+                   for (r, k), s in sorted(host.items()) if r == ref]
+            return {'state': 'x', 'sha': ref, 'repository': repo_doc, 'statuses': sts}
+
+    client = Client()
+    repo = github.Repository(client, _validate=False, **repo_doc)
+
+    class MockBertE(bemod.BertE):
+        def __init__(self):
+            self.client = client
+            self.project_repo = SimpleNamespace(owner='test_owner', slug='test_repo', full_name='test_owner/test_repo')
+            self.settings = SettingsDict(dict(repository_host='github', repository_owner='o', repository_slug='s',
+                                              build_key='k1', pull_request_base_url='u{pr_id}',
+                                              commit_base_url='c{commit_id}', admins=[], organization='',
+                                              frontend_url=''))
+            self.git_repo = SimpleNamespace()
+            self.task_queue = Queue()
+            self.tasks_done = deque(maxlen=10)
+            self.status = {}
+    b = MockBertE()
+    app = server.setup_server(b)
+    c = app.test_client()
+    auth = {'Authorization': 'Basic ' + base64.b64encode(b'hooklogin:hookpwd').decode()}
+    out = []
+    for j, seq in enumerate(seqs):
+        host.clear()
+        cache.BUILD_STATUS_CACHE.clear()
+        for k in KEYS:
+            cache.BUILD_STATUS_CACHE[k].size = size
+        n = 0
+        for (ev, cm, k, s) in seq:
+            n += 1
+            if ev == 'hostset':
+                host[(SHA[cm], k)] = s
+                ans = s
+            elif ev == 'webhook':
+                data = {'sha': SHA[cm], 'state': GH[s], 'context': k, 'description': 'd', 'target_url': 'http://ci/1',
+                        'repository': repo_doc}
+                r = c.post('/github', data=json.dumps(data), headers=dict({'X-Github-Event': 'status'}, **auth))
+                assert r.status_code in (200, 202), r.status_code
+                while b.task_queue.queue:
+                    b.task_queue.get()
+                    b.task_queue.task_done()
+                ans = s
+            else:
+                ans = repo.get_build_status(SHA[cm], k)
+            out.append(dict(tid=tid0 + j, n=n, ev=ev, c=cm, k=k, s=ans))
+    return out
+
+
 def _cache_validate(args):
-    path, scratch, size = args
+    path, scratch, size = args[:3]
+    gh = len(args) > 3 and args[3] == 'github'
     vio = path + '.viol.json'
-    cfg = os.path.join(scratch, 'tc_%d.cfg' % size)
+    cfg = path + '.cfg'
     open(cfg, 'w').write('SPECIFICATION TSpec\nPOSTCONDITION TraceAccepted\nCHECK_DEADLOCK FALSE\nCONSTANTS\n'
                          ' Commits = {"c1", "c2"}\n BuildKeys = {"k1", "k2"}\n States = {"SUCCESSFUL", "FAILED"}\n'
-                         ' CacheSize = %d\n MaxSteps = 0\n' % size)
+                         ' CacheSize = %d\n MaxSteps = 0\n PollAllKeys = %s\n GuardedStore = TRUE\n'
+                         % (size, 'TRUE' if gh else 'FALSE'))
     r = tlc.run_tlc('TraceCache.tla', cfg, scratch, workers=1, env={'TRACE_FILE': path, 'VIOL_FILE': vio}, timeout=3600)
     if not r['ok'] or not os.path.exists(vio):
         return dict(err=r['out'][-2500:], viol=[], div=[], n=0)
@@ -218,7 +299,7 @@ def check(tier, seed):
         empty_state = AggregatedWorkflowRuns(None, _validate=False, workflow_runs=[], total_count=0).state
         # ---- (b) design level
         mc = []
-        for cfgname in ('StatusCache.cfg', 'StatusCache.2.cfg'):
+        for cfgname in ('StatusCache.cfg', 'StatusCache.2.cfg', 'StatusCache.ghfix.cfg'):
             r = tlc.run_tlc('StatusCache.tla', cfgname, scratch, workers=16, timeout=1800)
             mc.append(dict(cfg=cfgname, ok=r['ok'], distinct=r['distinct'], states=r['states'], violated=r['violated']))
             if not r['ok']:
@@ -230,6 +311,13 @@ def check(tier, seed):
         seqs = []
         for L in range(1, maxlen + 1):
             seqs += list(itertools.product(acts, repeat=L))
+        # always: a green seen through one channel, the host turning red, a poll of ANOTHER key of the same commit
+        for cm in COMMITS:
+            for k in KEYS:
+                for k2 in KEYS:
+                    for first in ('webhook', 'poll'):
+                        seqs.append((('hostset', cm, k, 'SUCCESSFUL'), (first, cm, k, 'SUCCESSFUL' if first == 'webhook' else ''),
+                                     ('hostset', cm, k, 'FAILED'), ('poll', cm, k2, ''), ('poll', cm, k, '')))
         nwalk = 3000 if tier == 'quick' else 60000
         for _ in range(nwalk):
             seqs.append(tuple(rng.choice(acts) for _ in range(rng.randrange(5, 9))))
@@ -237,10 +325,11 @@ def check(tier, seed):
         work = []
         chunk = max(1, len(seqs) // 32 + 1)
         tid = 0
-        for size in (1, 2):
-            for lo in range(0, len(seqs), chunk):
-                work.append((seqs[lo:lo + chunk], size, tid))
-                tid += chunk
+        for hostkind in ('bitbucket', 'github'):
+            for size in (1, 2):
+                for lo in range(0, len(seqs), chunk):
+                    work.append((seqs[lo:lo + chunk], size, tid, hostkind))
+                    tid += chunk
         with ctx.Pool(16) as pool:
             outs = pool.map(_cache_worker, work, chunksize=1)
         vjobs = []
@@ -249,7 +338,7 @@ def check(tier, seed):
             with open(p, 'w') as f:
                 for e in o:
                     f.write(json.dumps(e) + '\n')
-            vjobs.append((p, scratch, w[1]))
+            vjobs.append((p, scratch, w[1], w[3]))
         with ctx.Pool(16) as pool:
             vr = pool.map(_cache_validate, vjobs, chunksize=1)
         for v in vr:
@@ -259,7 +348,7 @@ def check(tier, seed):
         seqof = {}
         for w in work:
             for j, s in enumerate(w[0]):
-                seqof[w[2] + j] = (s, w[1])
+                seqof[w[2] + j] = (s, w[1], w[3])
     finally:
         shutil.rmtree(scratch, ignore_errors=True)
     rdir = os.path.join(explore.VERIF, 'replays')
@@ -278,14 +367,15 @@ def check(tier, seed):
     cdiv = [tuple(x) for v in vr for x in v['div']]
     seen = set()
     for (tid_, n_, clause) in cviol:
-        s, size = seqof[tid_]
-        key = (clause, s[:n_], size)
+        s, size, hostkind = seqof[tid_]
+        key = (clause, s[:n_], size, hostkind)
         if key in seen:
             continue
         seen.add(key)
         p = os.path.join(rdir, 'C17_cache_%d.json' % len(seen))
         json.dump(dict(clause=clause, cache_size=size, sequence=s, at=n_), open(p, 'w'), indent=1)
-        viol.append(dict(sig=dict(clause=clause, cache_size=size, sequence=' '.join('%s(%s,%s,%s)' % a for a in s[:n_])),
+        viol.append(dict(sig=dict(clause=clause, cache_size=size, host=hostkind,
+                                  sequence=' '.join('%s(%s,%s,%s)' % a for a in s[:n_])),
                          replay=p))
     new = evidence.report('C17', viol, rdir)
     if cdiv:
@@ -295,23 +385,24 @@ def check(tier, seed):
         kinds |= {tuple(k) for k in r[3]}
     evidence.write('C17', tier, seed, 'model_checking', dict(
         states=sum(m['distinct'] for m in mc) + nagg, transitions=sum(m['states'] for m in mc) + nagg,
-        traces_validated_against_impl=2 * nseq + nagg,
+        traces_validated_against_impl=4 * nseq + nagg,
         samples=[dict(runs=[{k: run_of(5)[k] for k in ('event', 'status', 'conclusion', 'workflow_id', 'head_branch')}],
                       may_be_successful=1),
                  dict(sequence=[list(a) for a in seqs[len(acts) + 7]], cache_sizes=[1, 2])],
-        evaluations=nagg + 2 * nseq, distinct_nontrivial=len(kinds) + 2,
+        evaluations=nagg + 4 * nseq, distinct_nontrivial=len(kinds) + 2,
         rule='(a) every ordered list of <= %d workflow runs over 72 run values (3 events x 6 status/conclusion pairs x 2 '
              'workflow ids x 2 branches) and the empty list; (b) every sequence of <= %d actions over 20 actions (host '
              'update / webhook / poll x 2 commits x 2 keys x {SUCCESSFUL, FAILED}) plus %d seeded walks of length 5-8, '
              'cache sizes 1 and 2; distinct = (state, may-succeed) classes' % (4 if tier == 'thorough' else 3, maxlen, nwalk),
-        aggregate_lists=nagg, cache_sequences=2 * nseq, model_checking=mc, conformance_divergences=len(cdiv),
+        aggregate_lists=nagg, cache_sequences=4 * nseq, model_checking=mc, conformance_divergences=len(cdiv),
         disagreements=nabad + len(cviol), exhaustive=True,
         explanation='BuildStatus.tla / StatusCache.tla evaluated by TLC; TraceCache.tla judges the real sequences'),
         ['GitHub HTTP layer not driven: AggregatedWorkflowRuns is built from run documents as the unit tests do',
-         'the cache half runs the Bitbucket client with a scripted HTTP session and the Bitbucket webhook route; the '
-         'GitHub poll path (get_commit_status) shares BUILD_STATUS_CACHE but is not driven here',
+         'the cache half runs the Bitbucket client (scripted HTTP session, /bitbucket route) and the GitHub client '
+         '(get_build_status -> get_commit_status through a scripted client, /github status events); workflow runs '
+         'are empty in the cache half',
          'the stated alphabet has 2 workflow ids (with 3 ids the consecutive groupby can split a branch - DESIGN.md L7)'],
         time.time() - t0, new)
     print('C17: %d run lists aggregated (%d unsound), %d cache sequences on the real client/webhook (%d violations, %d divergences)'
-          % (nagg, nabad, 2 * nseq, len(cviol), len(cdiv)))
+          % (nagg, nabad, 4 * nseq, len(cviol), len(cdiv)))
     return 1 if new else 0
